@@ -3,8 +3,8 @@ from props_common import *
 PROP = dict(
     title="Sparse Merkle root depends only on the final key-value map",
     family="smt", harness="smt", run_vo="Run/Smt.vo",
-    theorems=["C12_fun", "C12_extensional", "C12_order_independent", "C12_fun_lookup"],
-    open_statements=[],
+    theorems=["C12_fun", "C12_extensional", "C12_order_independent", "C12_fun_lookup", "C12_refine"],
+    open_statements=["C12_from_set_full_statement: from_set / root_from_set / nodes_from_set of the L1 model return the spec root of the map the set denotes (not proved; covered by the correspondence run — roots, storage size, exact node list — and by the harness reference-root oracle)"],
     translators=[],
     quick_shards=8,
     trusted_base=[SHA_NOTE,
@@ -12,20 +12,24 @@ PROP = dict(
                   "common/{msb,path,path_iterator,node,storage_map}.rs (tied to the code by the correspondence run: byte-identical roots after every operation, "
                   "from_set/root_from_set/nodes_from_set roots and the exact node list of nodes_from_set)",
                   "Merkle/SparseSpec.v: definition of the compact sparse Merkle root of a finite map (what the theorems mean)"],
-    assumptions=["no hash assumption: the statements are equalities of hash expressions"],
+    assumptions=["C12_fun, C12_extensional, C12_order_independent, C12_fun_lookup: no hash assumption (equalities of hash expressions)",
+                 "C12_refine (L1 model of the Rust algorithm): the premises bundled in smt_iface — decidable digest equality, kbit/kcpl read the bits/common prefix of keys, "
+                 "of_bits/bits inverse on 256-bit keys, and collision-freeness hash_ok of the leaf/node hashes (the code chooses a child side and removes stale nodes by comparing digests); satisfiable: Merkle/SparseInst.v lb_iface"],
     rule=("histories of <= 60 insert/overwrite/delete operations over adversarial key pools (keys sharing prefixes of 0,1,7,8,9,127,254,255 bits, "
           "all-zero / all-one keys, last-bit siblings, nested deep chains), empty values, overwrite with the same value, delete of absent keys; root after "
           "EVERY operation from sparse::MerkleTree over StorageMap and from in_memory::MerkleTree, final storage size; from_set / root_from_set / nodes_from_set "
           "(+ node list) on the final map with shuffled order and overridden duplicates; each compared byte for byte with the Gallina L1 model, with the "
           "executed L2 tree and L3 spec root, and (oracle) with an independent recursive compact-SMT root written in the harness; "
           "distinct = distinct (length, final root); non-trivial = at least 2 distinct keys and 3 operations"),
-    level_text=("Machine-checked proof (Coq) that the functional compact sparse Merkle tree (insert with leaf splitting, delete with orphan-leaf collapse) has, after any "
-                "history, the compact sparse Merkle root of the map the history leaves behind (induction on the depth), that this root depends only on the lookup "
-                "function of the map, hence not on the order of operations; the Rust implementation is modelled function by function (L1) and tied to the code by a "
-                "differential run on every check; the L1-to-L2 refinement theorems that are proved are listed under theorems, the remaining ones under open_statements"),
-    level_note=("Trusted: Coq kernel; the hand-written L1 model tied by correspondence testing (testing, not proof); executable SHA-256 instance; harness. "
-                "Where an L1 refinement statement is listed as open, the link from the Rust-shaped algorithm (path_set/update_with_path_set/delete_with_path_set/from_set) "
-                "to the functional tree rests on the correspondence run and the in-Coq executed comparison L1 = L2 = L3 on the same histories, not on a proof."),
+    level_text=("Machine-checked proof (Coq) that (L2) the functional compact sparse Merkle tree has, after any history of inserts/overwrites/deletes, the compact sparse "
+                "Merkle root of the map the history leaves behind, that this root depends only on the lookup function of the map (order independence), and that (L1) the "
+                "function-by-function model of the Rust code — hash-addressed node store, PathIter/path_set, update_with_path_set with leaf merge and placeholder chain, "
+                "delete_with_path_set with orphan-leaf collapse — refines the functional tree for every history (C12_refine, under collision-freeness as explicit premise); "
+                "the model is tied to the code by a differential run on every check; from_set/root_from_set/nodes_from_set are modelled and tied by correspondence, their "
+                "refinement is listed as open"),
+    level_note=("Trusted: Coq kernel; the hand-written L1 model tied to the Rust code by correspondence testing (testing, not proof); executable SHA-256 instance; harness; "
+                "the interface premises of C12_refine (smt_iface incl. collision-freeness). The from_set family (three-node-window merge, merge_branches) is NOT proved: "
+                "its link to the spec rests on the correspondence run (incl. the exact node list of nodes_from_set) and the independent reference root in the harness."),
     technique="Coq proof by induction on tree depth (canonical-tree representation lemma) + differential model/impl run with independent reference root",
     design_ref="6/C12",
 )
